@@ -96,7 +96,10 @@ func VerifC08_Mismatch() {
 	dimg, _ := vrtCmdInvImage(h2, "d", now)
 	sp := vrt.TempFile("src/a.wsp", simg)
 	dp := vrt.TempFile("dst/a.wsp", dimg)
-	c := &CopyCommand{SrcBase: filepath.Dir(sp), DestBase: filepath.Dir(dp), SrcRelPath: "a.wsp", ArchiveID: ArchiveIDAll,
+	// any window, including one that lies inside both files' retentions
+	from := vrtCmdInstant(h, "from")
+	vrt.Assume(from <= now)
+	c := &CopyCommand{SrcBase: filepath.Dir(sp), DestBase: filepath.Dir(dp), SrcRelPath: "a.wsp", ArchiveID: ArchiveIDAll, From: from,
 		AggregationMethod: wt.Sum, XFilesFactor: 0.5, ArchiveInfoList: h.ArchiveInfoList()}
 	vrt.Reach("pre")
 	err := c.copyOneFile("a.wsp", "a.wsp", vrt.Writer())
